@@ -167,8 +167,13 @@ func (k *KerberosProxy) forward(realm string, data []byte) (resp []byte, err err
 		return nil, fmt.Errorf("cannot reach any kdc for realm %s", realm)
 	}
 
-	reply := <-replies
-	pending--
+	// wait for the first kdc that answers: a reader whose kdc refuses the
+	// connection or stays silent reports nil
+	var reply []byte
+	for pending > 0 && reply == nil {
+		reply = <-replies
+		pending--
+	}
 
 	// close all the connections and return the first reply
 	for kdc := range kdcs {
